@@ -6,9 +6,11 @@ import (
 	"os"
 	"runtime/debug"
 
+	"github.com/vechain/thor/v2/api/restutil"
 	"github.com/vechain/thor/v2/builtin"
 	"github.com/vechain/thor/v2/chain"
 	"github.com/vechain/thor/v2/thor"
+	"github.com/vechain/thor/v2/trie"
 
 	"verifharness/internal/nodecheck"
 )
@@ -414,6 +416,63 @@ func (r *reader) loop() {
 			}
 		case "api":
 			r.apiStep(it)
+		case "next":
+			r.nextStep()
+			if it%32 == 0 {
+				r.observeFinalized(false)
+			}
 		}
 	}
+}
+
+var nextRev, _ = restutil.ParseRevision("next", true)
+
+// nextStep: restutil.GetSummaryAndState for the revision "next" (what every call simulation on the block to come
+// starts from). The mocked header and the state must be ONE snapshot: the state handed out hashes to the header's state
+// root, which is the state root of the header's parent. The parent id is an observation of best (first load).
+func (r *reader) nextStep() {
+	n := r.rc.node
+	ph := r.rc.phase.Load()
+	s := r.stamp()
+	sum, st, err := restutil.GetSummaryAndState(nextRev, n.Repo, n.BFT, n.Stater, n.Net.FC)
+	e := r.stamp()
+	if err != nil {
+		r.violate("next-revision-error", fmt.Sprintf("GetSummaryAndState(next): %v", err), s, e, thor.Bytes32{})
+		return
+	}
+	parent := sum.Header.ParentID()
+	r.nObs++
+	r.byPhase[ph]++
+	if ph != phIdle {
+		r.nRaced++
+	}
+	if !r.distinct[parent] {
+		r.distinct[parent] = true
+		r.observed = append(r.observed, parent)
+	}
+	if len(r.all) < 400000 {
+		r.all = append(r.all, obsRec{s, e, parent})
+	}
+	g := group{s: s, e: e, b: parent, phase: ph}
+	ok, what := true, ""
+	stage, err := st.Stage(trie.Version{Major: sum.Header.Number()})
+	if err != nil {
+		ok, what = false, fmt.Sprintf("state of the next revision unreadable: %v", err)
+	} else if root := stage.Hash(); root != sum.Header.StateRoot() {
+		ok = false
+		what = fmt.Sprintf("mocked header: child of %s with state root %x, but the state handed out has root %x", short(parent), sum.Header.StateRoot().Bytes()[:6], root.Bytes()[:6])
+		for id, f := range r.w.facts {
+			if f.stateRoot == root {
+				what += fmt.Sprintf(" = state of block %s", short(id))
+				break
+			}
+		}
+	} else if f := r.w.facts[parent]; f != nil && (f.stateRoot != root || sum.Header.Number() != f.num+1) {
+		ok, what = false, fmt.Sprintf("mocked header number %d / state root do not belong to its parent %s", sum.Header.Number(), short(parent))
+	}
+	r.rd(&g, "next", 0, ok, thor.Bytes32{})
+	if !ok {
+		r.violate("next-revision-torn", "revision next is not one snapshot: "+what, s, e, parent)
+	}
+	r.keep(g, !ok)
 }
